@@ -114,6 +114,10 @@ type VContainer struct {
 	Cli     []CliVal `json:"cli"`
 	// UsePtr: declared through the *Ptr API (BoolPtr(&into, ...)) instead of the value-returning one
 	UsePtr bool `json:"use_ptr,omitempty"`
+	// Prefill: (with UsePtr) the target variable already holds something when it is declared - the declared default replaces it
+	Prefill bool `json:"prefill,omitempty"`
+	// EnvSep: separator between the names of the environment list ("" = one blank; any white space separates names)
+	EnvSep string `json:"env_sep,omitempty"`
 	// Cli2: values given on a SECOND command line run on the same application object (ValueCase.Second)
 	Cli2 []CliVal `json:"cli2,omitempty"`
 }
@@ -299,7 +303,11 @@ func declareValue(app *cli.Cli, ci int, c *VContainer, nopt *int, prefix string,
 			unsetenv(n)
 		}
 	}()
-	envList := strings.Join(envNames, " ")
+	sep := c.EnvSep
+	if sep == "" {
+		sep = " "
+	}
+	envList := strings.Join(envNames, sep)
 	set := new(bool)
 	name := "X"
 	if !c.IsArg {
@@ -381,11 +389,17 @@ func declareValue(app *cli.Cli, ci int, c *VContainer, nopt *int, prefix string,
 		switch {
 		case c.IsArg && c.UsePtr:
 			p = new([]string)
+			if c.Prefill {
+				*p = []string{"stale1", "stale2"}
+			}
 			app.StringsPtr(p, cli.StringsArg{Name: name, Value: d, EnvVar: envList, SetByUser: set})
 		case c.IsArg:
 			p = app.Strings(cli.StringsArg{Name: name, Value: d, EnvVar: envList, SetByUser: set})
 		case c.UsePtr:
 			p = new([]string)
+			if c.Prefill {
+				*p = []string{"stale1", "stale2"}
+			}
 			app.StringsPtr(p, cli.StringsOpt{Name: name, Value: d, EnvVar: envList, SetByUser: set})
 		default:
 			p = app.Strings(cli.StringsOpt{Name: name, Value: d, EnvVar: envList, SetByUser: set})
@@ -408,11 +422,17 @@ func declareValue(app *cli.Cli, ci int, c *VContainer, nopt *int, prefix string,
 		switch {
 		case c.IsArg && c.UsePtr:
 			p = new([]int)
+			if c.Prefill {
+				*p = []int{-77, -78}
+			}
 			app.IntsPtr(p, cli.IntsArg{Name: name, Value: d, EnvVar: envList, SetByUser: set})
 		case c.IsArg:
 			p = app.Ints(cli.IntsArg{Name: name, Value: d, EnvVar: envList, SetByUser: set})
 		case c.UsePtr:
 			p = new([]int)
+			if c.Prefill {
+				*p = []int{-77, -78}
+			}
 			app.IntsPtr(p, cli.IntsOpt{Name: name, Value: d, EnvVar: envList, SetByUser: set})
 		default:
 			p = app.Ints(cli.IntsOpt{Name: name, Value: d, EnvVar: envList, SetByUser: set})
@@ -435,11 +455,17 @@ func declareValue(app *cli.Cli, ci int, c *VContainer, nopt *int, prefix string,
 		switch {
 		case c.IsArg && c.UsePtr:
 			p = new([]float64)
+			if c.Prefill {
+				*p = []float64{-7.5}
+			}
 			app.Floats64Ptr(p, cli.Floats64Arg{Name: name, Value: d, EnvVar: envList, SetByUser: set})
 		case c.IsArg:
 			p = app.Floats64(cli.Floats64Arg{Name: name, Value: d, EnvVar: envList, SetByUser: set})
 		case c.UsePtr:
 			p = new([]float64)
+			if c.Prefill {
+				*p = []float64{-7.5}
+			}
 			app.Floats64Ptr(p, cli.Floats64Opt{Name: name, Value: d, EnvVar: envList, SetByUser: set})
 		default:
 			p = app.Floats64(cli.Floats64Opt{Name: name, Value: d, EnvVar: envList, SetByUser: set})
@@ -743,7 +769,7 @@ func describeContainers(c *ValueCase) string {
 var TokPool = []string{"0", "1", "-1", "+5", "007", "42", "9223372036854775807", "9223372036854775808", "-9223372036854775808", "-9223372036854775809",
 	"1e3", "1.5", ".5", "5.", "0x10", "0b1", "0o7", "1_000", "inf", "-Inf", "+Inf", "Infinity", "NaN", "nan", "1e309", "-1e309", "1e-400", "0x1p-2", "1E5",
 	"true", "false", "T", "F", "t", "f", "TRUE", "FALSE", "True", "False", "yes", "no", "tRUE", "1.0", "00", "-0", "+0", "-0.0",
-	" 1", "1 ", "abc", "é", "٣", "1,2", "\xff\xfe", "caf\xe9", "\xc3(", "1\x80", "2147483648", "4294967296", "18446744073709551616", "1e", "e1", "--1", "+-1", "0.1e+1", "x"}
+	" 1", "1 ", "abc", "é", "٣", "1,2", " ", "\t", "0000000000000000000000042", "+00000000000000000000007", "000000000000000000000", "-000000000000000000000000009", "00000000000000000000001.5", "\xff\xfe", "caf\xe9", "\xc3(", "1\x80", "2147483648", "4294967296", "18446744073709551616", "1e", "e1", "--1", "+-1", "0.1e+1", "x"}
 
 var numericShape = rapid.StringMatching(`[-+]?(0x|0X|0b|0o)?[0-9a-fA-F_]{1,20}(\.[0-9]{0,5})?([eEpP][-+]?[0-9]{1,3})?`)
 
@@ -821,6 +847,8 @@ func GenValueCase(t *rapid.T, mode ValueGenMode) *ValueCase {
 	}
 	mk := func(isArg bool) VContainer {
 		vc := VContainer{Typ: intn(t, 7, "typ"), IsArg: isArg, UsePtr: chance(t, 1, 3, "useptr")}
+		vc.Prefill = vc.UsePtr && chance(t, 1, 2, "prefill")
+		vc.EnvSep = rapid.SampledFrom([]string{"", "", "", "\t", "\n", "  "}).Draw(t, "envsep")
 		nd := 1
 		if multi(vc.Typ) {
 			nd = rapid.IntRange(0, 2).Draw(t, "ndef")
@@ -852,6 +880,8 @@ func GenValueCase(t *rapid.T, mode ValueGenMode) *ValueCase {
 							}
 							if chance(t, 1, 3, "pad") {
 								p = " " + p + "\t"
+							} else if chance(t, 1, 8, "unicodepad") {
+								p = "\u00a0" + p + "\u3000" // blanks are whatever strings.TrimSpace calls blank
 							}
 							parts = append(parts, p)
 						}
@@ -868,6 +898,9 @@ func GenValueCase(t *rapid.T, mode ValueGenMode) *ValueCase {
 			}
 		}
 		ncli := rapid.IntRange(0, mode.CliMax).Draw(t, "ncli")
+		if multi(vc.Typ) && chance(t, 1, 16, "manyvalues") {
+			ncli = rapid.IntRange(7, 12).Draw(t, "nclimany") // well over a dozen value tokens per command line when two such containers meet
+		}
 		if chance(t, mode.CliZero, 8, "clizero") {
 			ncli = 0
 		}
